@@ -89,6 +89,12 @@ CHECKS.update({
             "4/C16", CONC_NOTE + " Part (b) replaces multiprocessing conditions/manager lists by scheduler-owned ones; part (c) uses the real ones."),
 })
 
+CHECKS.update({
+    "C18": ("exploration", "seq", "runtime monitor: probe trace assertion (every creating operation inside the store root), sandbox snapshot and model comparison of bystander identifiers after every step, over adversarial identifier tuples",
+            "Adversarial pid / format tuples (relatives: prefix, suffix, case, +NUL; path-like; 5000 chars) run through a store/tag/metadata/delete script; after every step the untouched identifiers are compared with the model, the probe trace is checked for containment and the remaining files for hash-only locations.",
+            "4/C18", SEQ_NOTE),
+})
+
 NOT_YET = {}
 
 
